@@ -5,6 +5,7 @@ import (
 	"net"
 	"net/netip"
 	"sync"
+	"sync/atomic"
 	"syscall"
 	"time"
 
@@ -72,6 +73,7 @@ func (u *ut0311) Broadcast(addr *net.UDPAddr, request []byte) ([][]byte, error) 
 
 	var replies = make([][]byte, 0)
 	var err error
+	var lock sync.Mutex // guards replies and err, which are shared with the reader goroutine
 
 	// NTS: set-ip doesn't return a reply
 	if request[1] != 0x96 {
@@ -80,10 +82,14 @@ func (u *ut0311) Broadcast(addr *net.UDPAddr, request []byte) ([][]byte, error) 
 				reply := make([]byte, 2048)
 
 				if N, remote, errx := connection.ReadFromUDP(reply); errx != nil {
+					lock.Lock()
 					err = errx
+					lock.Unlock()
 					return
 				} else {
+					lock.Lock()
 					replies = append(replies, reply[:N])
+					lock.Unlock()
 
 					u.debugf(fmt.Sprintf(" ... received %v bytes from %v (UDP)\n%s", N, remote, codec.Dump(reply[:N], " ...          ")), nil)
 				}
@@ -92,6 +98,9 @@ func (u *ut0311) Broadcast(addr *net.UDPAddr, request []byte) ([][]byte, error) 
 	}
 
 	time.Sleep(u.timeout)
+
+	lock.Lock()
+	defer lock.Unlock()
 
 	return replies, err
 }
@@ -336,11 +345,11 @@ func (u *ut0311) Listen(signal chan any, done chan any, callback func([]byte)) e
 		return fmt.Errorf("failed to open UDP socket (%v)", c)
 	}
 
-	closed := false
+	var closed atomic.Bool
 
 	go func() {
 		<-signal
-		closed = true
+		closed.Store(true)
 		c.Close()
 	}()
 
@@ -352,7 +361,7 @@ func (u *ut0311) Listen(signal chan any, done chan any, callback func([]byte)) e
 
 			N, remote, err := c.ReadFromUDP(m)
 			if err != nil {
-				if closed {
+				if closed.Load() {
 					u.debugf(" ... listen socket closed", nil)
 					break
 				}
